@@ -1,5 +1,6 @@
 """C36 EKO archives round-trip all their content (points, arrays bitwise, cards, metadata; edits preserve the rest)."""
 
+import copy
 import math
 
 from vf import runner_util as ru
@@ -24,7 +25,11 @@ RULE = (
     "arrays bitwise, theory card, operator card and metadata equal (raw dictionaries, NaN-aware, exact floats), parts and "
     "recipes equal after sync; then EKO.edit + one change (nothing / add a point / overwrite a point, possibly switching "
     "error presence / set xgrid (log or linear) / add a part) + close + EKO.read: the change is visible and everything else "
-    "is bitwise unchanged.  Non-trivial = >= 2 distinct points and (a NumPy scalar in a key, or a special-value / "
+    "is bitwise unchanged.  Both the creating and the edit session continue with 0-3 further actions before their close: "
+    "update a stored operator in place (the object held from the store or loaded with eko[ep]) and save it by assigning the "
+    "same object again, eko.dump(other path) snapshots (each re-read and compared with the content at that moment), "
+    "eko.dump() on the registered path, metadata.xgrid = .. followed by metadata.update(), del / unload(); the model follows "
+    "every action and the registered archive is compared after the close.  Non-trivial = >= 2 distinct points and (a NumPy scalar in a key, or a special-value / "
     "bit-pattern array, or an error array); distinct by case."
 )
 ASSUMPTIONS = [
@@ -155,6 +160,21 @@ def strategy(tier):
         return dict(k=key, op=op, err=err)
 
     @st.composite
+    def st_action(draw):
+        kind = draw(st.sampled_from(["mutate", "snapshot", "mutate", "snapshot", "mutate", "snapshot", "meta_xgrid", "dump", "unload", "del"]))
+        if kind == "mutate":
+            return [
+                "mutate", draw(st.integers(0, 5)), draw(st.integers(0, 2**32 - 1)),
+                draw(st.sampled_from(["special", "bits", "unit", "mzero"])), draw(st.sampled_from(["load", "held"])),
+            ]
+        if kind == "meta_xgrid":
+            xs, _ = draw(ru.st_xgrid(2, 8))
+            return ["meta_xgrid", xs, draw(st.booleans())]
+        if kind == "del":
+            return ["del", draw(st.integers(0, 5))]
+        return [kind]
+
+    @st.composite
     def build(draw):
         card = draw(st_card())
         k = len(card["xgrid"])
@@ -185,7 +205,10 @@ def strategy(tier):
             edit.update(xgrid=xs, log=draw(st.booleans()))
         elif kind == "part":
             edit["part"] = draw(st_part())
-        return dict(card=card, points=points, parts=parts, recipes=recipes, edit=edit)
+        # further actions inside the creating session (after the writes) and inside the edit session (after the change)
+        create_after = [draw(st_action()) for _ in range(draw(st.sampled_from([0, 1, 0, 2])))]
+        after = [draw(st_action()) for _ in range(draw(st.sampled_from([2, 1, 0, 3])))]
+        return dict(card=card, points=points, parts=parts, recipes=recipes, create_after=create_after, edit=edit, after=after)
 
     return build()
 
@@ -247,21 +270,21 @@ def snapshot(eko, with_inventories=True):
 
 def compare(res, stage_full, want, got):
     """Append one violation per differing component (bucket = component + stage family; details in the message)."""
-    stage = "reread" if stage_full == "reread" else "after-edit"
+    stage = "reread" if stage_full in ("reread", "snapshot@write") else "after-edit"
     if got["iter"] != sorted(got["points"]):
         res.fail(f"{ID}/{stage}/points/iter-vs-items", f"iteration {got['iter']} vs items() {sorted(got['points'])}")
     if sorted(want["points"]) != sorted(got["points"]):
         extra = sorted(set(got["points"]) - set(want["points"]))
         missing = sorted(set(want["points"]) - set(got["points"]))
-        res.fail(f"{ID}/{stage}/points/keys", f"points written {sorted(want['points'])}, read {sorted(got['points'])} (extra {extra}, missing {missing})")
+        res.fail(f"{ID}/{stage}/points/keys", f"[{stage_full}] points written {sorted(want['points'])}, read {sorted(got['points'])} (extra {extra}, missing {missing})")
     for k in sorted(set(want["points"]) & set(got["points"])):
         for i, part in enumerate(("operator", "error")):
             if want["points"][k][i] != got["points"][k][i]:
-                res.fail(f"{ID}/{stage}/points/{part}", f"{part} of {k}: {s1.describe_diff(want['points'][k][i], got['points'][k][i])}")
+                res.fail(f"{ID}/{stage}/points/{part}", f"[{stage_full}] {part} of {k}: {s1.describe_diff(want['points'][k][i], got['points'][k][i])}")
     for comp in ("theory", "operator", "metadata"):
         d = s1.raw_diff(want[comp], got[comp])
         if d:
-            res.fail(f"{ID}/{stage}/{comp}", f"{comp} differs at {d}")
+            res.fail(f"{ID}/{stage}/{comp}", f"[{stage_full}] {comp} differs at {d}")
     if want["xgrid_log"] != got["xgrid_log"]:
         res.fail(f"{ID}/{stage}/metadata/xgrid-log-flag", f"metadata.xgrid.log written {want['xgrid_log']}, read {got['xgrid_log']}")
     for name in ("parts", "parts_matching"):
@@ -318,11 +341,15 @@ def _check(case, res, sb):
     numpy_key = special = with_err = False
     modes = set()
 
+    eps, held, snapshots, actions_done = {}, {}, [], set()
+
     def put_point(eko, pt):
         nonlocal numpy_key, special, with_err
         ep, k, isnp = resolve_key(pt["k"], opc)
         op = s1.make_operator(pt["op"], pt["err"])
         eko[ep] = op
+        eps.setdefault(k, ep)
+        held[k] = op
         want["points"][k] = s1.op_frozen(op)
         numpy_key |= isnp
         special |= pt["op"]["mode"] in ("special", "bits", "mzero")
@@ -335,6 +362,69 @@ def _check(case, res, sb):
         name = inv_name(hdr, True)
         getattr(eko, name)[hdr] = op
         want[name][header_key(hdr)] = s1.op_frozen(op)
+
+    def run_actions(eko, actions, session):
+        """Further public-API actions inside an open writable session; the model follows every one of them."""
+        nonlocal special
+        for a in actions:
+            kind = a[0]
+            keys = sorted(want["points"])
+            if kind in ("mutate", "del") and not keys:
+                continue
+            if kind == "mutate":
+                # update a stored operator in place and save it the documented way (Inventory.__delitem__ docstring):
+                # assign the same object again
+                _, i, seed, mode, via = a
+                k = keys[i % len(keys)]
+                op = held.get(k) if via == "held" else None
+                if op is None:
+                    op = eko[eps[k]]
+                    via = "load"
+                op.operator[...] = s1.make_array({"seed": seed, "mode": mode, "shape": list(op.operator.shape)})
+                if op.error is not None:
+                    op.error[...] = s1.make_array({"seed": seed + 1, "mode": mode, "shape": list(op.error.shape)})
+                eko[eps[k]] = op
+                held[k] = op
+                want["points"][k] = s1.op_frozen(op)
+                special |= mode != "unit"
+                actions_done.add(f"{session}:mutate-{via}")
+            elif kind == "del":
+                del eko[eps[keys[a[1] % len(keys)]]]
+                actions_done.add(f"{session}:del")
+            elif kind == "unload":
+                eko.unload()
+                actions_done.add(f"{session}:unload")
+            elif kind == "dump":
+                eko.dump()
+                actions_done.add(f"{session}:dump")
+            elif kind == "snapshot":
+                # a copy of the current content written to another archive; the registered archive is written at close
+                dest = sb.dir / f"snapshot{len(snapshots)}.tar"
+                eko.dump(dest)
+                snapshots.append((dest, copy.deepcopy(want), f"snapshot@{session}"))
+                actions_done.add(f"{session}:snapshot")
+            elif kind == "meta_xgrid":
+                # Metadata docstring: nested changes need a manual call to update()
+                eko.metadata.xgrid = XGrid(a[1], log=a[2])
+                eko.metadata.update()
+                want["metadata"]["xgrid"] = [float(x) for x in sorted(a[1])]
+                want["xgrid_log"] = bool(a[2])
+                actions_done.add(f"{session}:meta_xgrid")
+            else:
+                raise ValueError(f"unknown action {a}")
+        if actions and actions[-1][0] == "snapshot":
+            actions_done.add(f"{session}:snapshot-last")
+
+    def check_snapshots():
+        for dest, model, label in snapshots:
+            try:
+                with _opened(EKO.read, dest) as r:
+                    got = snapshot(r)
+            except Exception as e:  # noqa: BLE001
+                res.fail(raised_bucket(e), f"stage {label}, reading the archive written by dump(path): {e!r}")
+                continue
+            compare(res, label, model, got)
+        del snapshots[:]
 
     # ---- stage 1: write, close
     stage = "write"
@@ -349,6 +439,7 @@ def _check(case, res, sb):
             eko.load_recipes([hdr])
             name = inv_name(hdr, False)
             want[name] = sorted(set(want[name]) | {header_key(hdr)})
+        run_actions(eko, case.get("create_after", []), "write")
         eko.close()
     except Exception as e:  # noqa: BLE001 - repo call on in-domain input
         res.fail(raised_bucket(e), f"stage {stage}: {e!r}")
@@ -375,6 +466,8 @@ def _check(case, res, sb):
         res.fail(raised_bucket(e), f"stage {stage}: {e!r}")
         return
     compare(res, stage, want, got)
+    check_snapshots()
+    res.classes += sorted(actions_done)
     if res.violations:
         return
 
@@ -382,6 +475,7 @@ def _check(case, res, sb):
     stage = f"edit-{edit['kind']}"
     try:
         eko = EKO.edit(path)
+        held.clear()
         if edit["kind"] in ("add", "overwrite"):
             before = dict(want["points"])
             put_point(eko, edit["point"])
@@ -395,6 +489,7 @@ def _check(case, res, sb):
             res.classes.append(f"xgrid-log={edit['log']}")
         elif edit["kind"] == "part":
             put_part(eko, edit["part"])
+        run_actions(eko, case.get("after", []), "edit")
         eko.close()
     except Exception as e:  # noqa: BLE001
         res.fail(raised_bucket(e), f"stage {stage}: {e!r}")
@@ -406,6 +501,8 @@ def _check(case, res, sb):
         res.fail(raised_bucket(e), f"stage {stage}, re-reading: {e!r}")
         return
     compare(res, stage, want, got)
+    check_snapshots()
+    res.classes += sorted(a for a in actions_done if a.startswith("edit:"))
 
 
 def _has_ulp_pair(points):
